@@ -926,7 +926,7 @@ pub fn one(ctx: &mut Ctx, c: &Case) -> bool {
             Ok(Err(e)) => {
                 let k = e.split(':').next().unwrap_or("?").to_string();
                 if ctx.get_count(&format!("text-route-skipped:{k}")) < 2 {
-                    ctx.note(&format!("text route skipped ({}) for {}", &e[..e.len().min(300)], plan.text()));
+                    ctx.note(&format!("text route skipped ({}) for {}", e.chars().take(300).collect::<String>().replace('\n', " "), plan.text()));
                 }
                 ctx.count(&format!("text-route-skipped:{k}"));
             }
